@@ -181,6 +181,7 @@ func genC02(ctx *Ctx) {
 		"a lıke b", "a ıs null", "a ıN b", "x NOT Lıke y", "a iſ nULL", "not falſe", "a LI\u212aE b", "a \u212a b", "nULL ıſ nULL", "a xOR b", "truE aND falSe", "a L\u0130KE b",
 		"(a + b)\u00a0", "\u00a0a + b", "\u00a0", "a + b\u3000", "\u2003a", "a\u0085", "\u00a0 a \u00a0", "a + b\v", "\fa", "a\u2028", "\ufeffa",
 		// characters no tokenizer state is registered for (U+FFFF and everything outside the BMP): Unknown tokens, never dropped
+		"\"\"()", "\"\"(1)", "a + \"\"(b) * 2", "\"\"[0]", "f(\"\")", "\"\" IS NULL", "- \"\"", "\"\"(\"\")",
 		"1 😀 + 2", "a 😀", "😀", "a + \U00010000 b", "(a + b)\U0010FFFF", "f(a,😀 b)", "a \uffff b", "a IS 😀 NOT NULL", "\uffff", "1 +😀2", "a😀", "'x' 😀"} {
 		ctx.Count("special")
 		ctx.Input(exprInput(s, sx.L(), nil), true)
